@@ -48,6 +48,10 @@ func (w *World) TimedRun(s *kernel.Sim) {
 			d.Kind = "db.err"
 		case f == 2 && p.Name == "sql.commit":
 			d = kernel.Decision{Kind: "db.err", S: "lost-ack"}
+		case f == 3 && p.Name == "sql.query":
+			d = kernel.Decision{Kind: "db.err", S: "at-rows"}
+		case f == 4 && p.Name == "sql.query":
+			d = kernel.Decision{Kind: "db.busy", S: "at-rows"}
 		}
 		w.mu.Lock()
 		o := w.byParty[p.Party]
